@@ -84,6 +84,9 @@ func main() {
 		i := i
 		c.RunCase(i, func() { ck.Run(c, i) }, frugal.VerifDrain)
 		done++
+		if c.Aborted() {
+			break
+		}
 	}
 	c.Finish(frugal.VerifCounters())
 	if next >= 0 {
